@@ -186,3 +186,12 @@ def load_known() -> Dict[tuple, dict]:
         for ent in data.get("findings", []):
             out[(ent["property"], ent["rule"], ent["key"])] = ent
     return out
+
+
+def section(rep: "Report", fn):
+    """Run one rule section; a lost anchor inside it is recorded (exit 2 unless a violation is found elsewhere) without stopping the sections that follow."""
+    try:
+        return fn()
+    except AnalysisError as e:
+        rep.error("rule=anchor reason=%s" % e)
+        return None
